@@ -34,7 +34,29 @@ def case_key(case):
     return ("m", case["markup"], tuple(case.get("steps") or ())) if "markup" in case else ("t", case["text"])
 
 
-def run_property(pid, seed, n, focus=None, budget_s=None, corpus=True, only_corpus=False, tokenizers=None, extra_cases=(), stop_on_first=False, keep=10):
+DEFAULT_JOBS = {"C04": 4, "C12": 4}  # the two properties that run the slow reference tokenizer
+_WORK = None
+
+
+def _work(ic):
+    """Evaluate one case (possibly in a forked worker).  Returns (index, violations|None, error|None, stats delta)."""
+    import checkers
+
+    idx, case = ic
+    check, toks, deadline = _WORK
+    if deadline is not None and time.time() > deadline:
+        return idx, None, None, None
+    before = dict(checkers.STATS)
+    try:
+        vs = check(case, tokenizers=toks)
+        err = None
+    except Exception as e:
+        vs, err = None, f"{type(e).__name__}: {e}"
+    delta = {k: v - before.get(k, 0) for k, v in checkers.STATS.items() if v != before.get(k, 0)}
+    return idx, vs, err, delta
+
+
+def run_property(pid, seed, n, focus=None, budget_s=None, corpus=True, only_corpus=False, tokenizers=None, extra_cases=(), keep=10, jobs=None):
     """Run the checker of `pid` over corpus + extra_cases + n generated cases.  Returns the report dict."""
     t0 = time.time()
     import checkers
@@ -78,42 +100,65 @@ def run_property(pid, seed, n, focus=None, budget_s=None, corpus=True, only_corp
                         yield m
             yield from mark
 
-    evaluations = 0
+    # materialise the (deterministic) case list, dropping identical inputs
     seen = set()
-    violations = []
-    counts = {}
-    by_origin = {}
-    sizes = []
-    checker_errors = []
-    truncated = False
+    cases = []
     for case in stream():
-        if budget_s is not None and time.time() - t0 > budget_s:
-            truncated = True
-            break
         key = case_key(case)
         if key in seen:
             continue  # identical input: nothing new to learn (checkers are deterministic)
         seen.add(key)
+        cases.append(case)
+    deadline = None if budget_s is None else t0 + budget_s
+    if jobs is None:
+        jobs = DEFAULT_JOBS.get(pid, 1)
+    jobs = max(1, min(int(jobs), (len(cases) + 7) // 8))
+    global _WORK
+    _WORK = (check, toks, deadline)
+    if jobs > 1:
+        import multiprocessing as mp
+
+        # fork AFTER the tokenizers were built: the workers inherit the compiled regexes / Hyperscan DB
+        with mp.get_context("fork").Pool(jobs) as pool:
+            results = pool.map(_work, list(enumerate(cases)), chunksize=4)
+    else:
+        results = [_work(ic) for ic in enumerate(cases)]
+
+    evaluations = 0
+    violations = []
+    counts = {}
+    subcounts = {}
+    by_origin = {}
+    sizes = []
+    checker_errors = []
+    truncated = False
+    stats = dict(checkers.STATS) if jobs == 1 else {}
+    for (idx, vs, err, st), case in zip(results, cases):
+        if vs is None and err is None:
+            truncated = True
+            continue
+        key = case_key(case)
         evaluations += 1
         sizes.append(len(key[1]))
-        try:
-            vs = check(case, tokenizers=toks)
-        except Exception as e:  # a bug in the checker itself must never look like a clean run
-            checker_errors.append({"input": key[1][:300], "error": f"{type(e).__name__}: {e}"})
+        if jobs > 1:
+            for k, v in (st or {}).items():
+                stats[k] = stats.get(k, 0) + v
+        if err is not None:  # a bug in the checker itself must never look like a clean run
+            checker_errors.append({"input": key[1][:300], "error": err})
             continue
         origin = case.get("origin", "?")
         for v in vs:
             v["detail"]["_origin"] = origin
             counts[v["clause"]] = counts.get(v["clause"], 0) + 1
+            sub = v["detail"].get("exception") or v["detail"].get("field") or v["detail"].get("reason") or v["detail"].get("stage")
+            if sub:
+                sk = f"{v['clause']}:{sub}"
+                subcounts[sk] = subcounts.get(sk, 0) + 1
             o = "corpus" if origin.startswith("corpus") else ("values" if origin.startswith("values") else "generated")
             by_origin.setdefault(v["clause"], {}).setdefault(o, 0)
             by_origin[v["clause"]][o] += 1
             if len(violations) < keep and sum(1 for w in violations if w["clause"] == v["clause"]) < max(2, keep // 3):
                 violations.append(v)
-        if vs and stop_on_first:
-            break
-    if len(violations) < keep:
-        pass
     sizes.sort()
     bound = (
         f"{evaluations} distinct inputs sampled (not enumerated): "
@@ -131,12 +176,14 @@ def run_property(pid, seed, n, focus=None, budget_s=None, corpus=True, only_corp
         "distinct": len(seen),
         "violations": violations[:keep],
         "violation_counts": counts,
+        "violation_subcounts": subcounts,
         "violation_origins": by_origin,
         "bound": bound,
         "seed": seed,
         "focus": focus,
         "truncated": truncated,
-        "skipped": dict(checkers.STATS),
+        "coverage": {k: stats[k] for k in sorted(stats)},
+        "jobs": jobs,
         "checker_errors": checker_errors[:5],
         "eyecite": checkers.EYECITE_FILE,
         "wall_s": round(time.time() - t0, 2),
@@ -161,6 +208,7 @@ def main(argv=None):
     ap.add_argument("--only-corpus", action="store_true", help="regression corpus only")
     ap.add_argument("--tokenizers", default=None, help="comma list of aho,ref,hs or 'all' (default: per property)")
     ap.add_argument("--keep", type=int, default=10)
+    ap.add_argument("--jobs", type=int, default=None, help="worker processes (default 4 for C04/C12, else 1)")
     try:
         args = ap.parse_args(argv)
     except SystemExit:
@@ -172,7 +220,7 @@ def main(argv=None):
         print(json.dumps({"property": pid, "error": "unknown property id and no props/run_b.py", "evaluations": 0, "distinct": 0, "violations": [], "violation_counts": {}, "bound": "none", "seed": args.seed}))
         return 0
     try:
-        rep = run_property(pid, args.seed, args.n, focus=args.focus, budget_s=args.budget_s, corpus=not args.no_corpus, only_corpus=args.only_corpus, tokenizers=args.tokenizers, keep=args.keep)
+        rep = run_property(pid, args.seed, args.n, focus=args.focus, budget_s=args.budget_s, corpus=not args.no_corpus, only_corpus=args.only_corpus, tokenizers=args.tokenizers, keep=args.keep, jobs=args.jobs)
     except Exception as e:
         import traceback
 
